@@ -356,9 +356,67 @@ def check_lazy(case):
     return {"nontrivial": True, "labels": [tmpl[:20]], "sample": src[:200]}
 
 
+# (5) a delayed expression reached through several containers derived from one another (reversed, sliced, concatenated, mapped,
+# sorted, formatted, manifested ...) is still one delayed expression: it runs once
+SHARED = [
+ "local a = [T]; [a[0], std.reverse(a)[0], (a + [])[0], a[0:1][0], ([] + a)[0]]",
+ "local a = [T]; [std.map(function(x) x, a)[0], a[0]]",
+ "local a = [T]; local b = std.map(function(x) x + 1, a); [b[0], b[0], b[0]]",
+ "local a = [T]; local b = std.repeat(a, 3); [b[0], b[1], b[2], a[0]]",
+ "local a = [T]; local b = [x for x in a]; [b[0], a[0], b[0]]",
+ "local a = [T, 1]; local b = std.filter(function(x) true, a); [b[0], a[0]]",
+ "local a = [[T]]; local b = std.flattenArrays(a); [b[0], a[0][0]]",
+ "local o = {a: T}; [o.a, std.objectValues(o)[0], std.get(o, 'a'), o['a'], std.objectKeysValues(o)[0].value]",
+ "local o = {a: T}; local p = std.objectRemoveKey(o + {b: 1}, 'b'); [p.a, p.a]",
+ "local o = {a: T}; local p = std.mapWithKey(function(k, v) v, o); [p.a, p.a, o.a]",
+ "local o = {a: T}; [o == o, o.a]",
+ "local a = [T]; [a == a, a[0], std.toString(a), std.manifestJson(a)]",
+ "local a = std.makeArray(1, function(i) T); [a[0], std.reverse(a)[0], a[0]]",
+ "local f = function(x) [x, x]; local r = f(T); [r[0], r[1], r]",
+ "local a = [T]; std.sort(a + a + a)",
+ "local a = [T]; [std.foldl(function(acc, x) acc + x, a + a, 0), a[0]]",
+ "local a = [T]; [std.length(a), std.count(a, 5), std.member(a, 5), std.sum(a), a[0]]",
+ "local a = [T]; local b = std.slice(a, 0, 1, 1); [b[0], a[0]]",
+ "local a = [T]; local b = std.join([], [a, a]); [b[0], b[1]]",
+ "local x = T; local o = {a: x, b: x, c: self.a}; [o, o.c, x]",
+ "local o = {a: T, b: self.a}; local p = o + {c: super.a}; [p.c, p.b, p.a]",
+ "local x = T; std.mergePatch({a: x}, {b: x})",
+ "local x = T; std.prune([x, [x], {a: x}])",
+ "local x = T; [std.format('%d %d', [x, x]), '%(a)d' % {a: x}]",
+ "local a = [T]; std.set(a + a) + std.uniq(a + a)",
+ "local a = [T]; std.setUnion(a, a) + std.setInter(a, a)",
+ "local x = T; std.minArray([x, x]) + std.maxArray([x, x])",
+ "local o = {a: T}; std.manifestJsonEx(o, ' ') + std.manifestYamlDoc(o) + std.toString(o) + std.manifestPython(o)",
+]
+
+
+def enum_shared(tier, worker, nworkers):
+    k = 0
+    for i in range(len(SHARED)):
+        for gc in ("default", "every1", "every7"):
+            k += 1
+            if k % nworkers == worker:
+                yield {"t": i, "gc": gc}
+
+
+def check_shared(case):
+    src = SHARED[case["t"]].replace("T", "std.trace('T', 5)")
+    req = {"op": "eval", "src": src, "want": ["multi"], "fuel": 2_000_000}
+    if case["gc"] != "default":
+        req["gc"] = {"mode": "every", "n": int(case["gc"][5:])}
+    r = util.request(req, what=src)
+    if "ok" not in r:
+        raise Violation("once-template-failed", f"{src} failed: {r['err']}")
+    n = sum(1 for t in r.get("traces", []) if t == "T")
+    if n != 1:
+        raise Violation("evaluated-not-once", f"the traced thunk ran {n} times (expected 1) in {src}")
+    return {"nontrivial": True, "labels": [case["gc"]], "sample": src[:200]}
+
+
 CHECKS = [
     Check("dead_code", check_dead, dead_case, quick=300, thorough=10000),
     Check("rewrites", check_rewrite, rewrite_case, quick=300, thorough=10000),
     Check("at_most_once", check_once, once_case, quick=150, thorough=3000),
     Check("lazy_containers", check_lazy, lazy_case, quick=400, thorough=12000),
+    Check("once_through_derived_containers", check_shared, enumerate_fn=enum_shared, exhaustive=True),
 ]
